@@ -34,11 +34,12 @@ type c18Scenario struct {
 
 func init() {
 	register(&PropDef{
-		ID:   "C18",
-		Rule: "scenario = (keepalive interval, idle/busy session, how and when the session ends: k-th keepalive write fails / cut / Disconnect / stream error at a drawn instant, latency); non-trivial = at least one keepalive tick elapsed while the session was up; distinct = distinct (scenario hash, schedule hash)",
-		Real: []string{"keepalive goroutine and ticker", "XMPPTransport.Ping / Close", "xmpp.Client recv loop"},
-		Stub: []string{"TCP (simnet) with write-failure injection", "XMPP server (scripted model)", "clock (synctest)", "goroutine scheduling (token scheduler)"},
-		Run:  runC18,
+		ID:    "C18",
+		Rule:  "scenario = (keepalive interval, idle/busy session, how and when the session ends: k-th keepalive write fails / cut / Disconnect / stream error at a drawn instant, latency); non-trivial = at least one keepalive tick elapsed while the session was up; distinct = distinct (scenario hash, schedule hash)",
+		Real:  []string{"keepalive goroutine and ticker", "XMPPTransport.Ping / Close", "xmpp.Client recv loop"},
+		Stub:  []string{"TCP (simnet) with write-failure injection", "XMPP server (scripted model)", "clock (synctest)", "goroutine scheduling (token scheduler)"},
+		Run:   runC18,
+		Reach: []string{"c18.websocket", "c18.tls", "c18.keepalive_write_failed", "c18.reconnect_in_callback", "c18.peer_stops_reading", "c18.after_an_earlier_session"},
 	})
 }
 
